@@ -18,7 +18,10 @@ CORRESPONDENCE = ["FrameD.decompress / decompress_usingDict model == LZ4F_decomp
 RULE = ("frames built from parts in Python (header fields x raw/compressed/empty blocks from an independent sequence encoder x block/content "
         "checksums x content size x dictID x dictionaries), liblz4-made frames for volume, mutations, ALL single-bit flips and ALL truncations of "
         "small frames, FLG/BD pairs (all 65536 in thorough, stratified in quick) with right and wrong header checksum, random bytes over small "
-        "alphabets, skippable frames (16 magics, sizes 0..), multi-frame buffers with trailing bytes, linked blocks over >64KB; each byte string under "
+        "alphabets, skippable frames (16 magics, sizes 0..), multi-frame buffers with trailing bytes, linked blocks over >64KB; directed families: "
+        "'recycle' (linked, > maxBlockSize+128KB of uncompressed blocks through small dst buffers, then far matches), 'maxblock' (stored block size == "
+        "maxBlockSize staged through tmpIn, internal allocation sizes compared with the model), 'skipleak' (skipChecksums on frame k, checksum-only "
+        "damage on frame k+1), 'infodict' (getFrameInfo then decompress_usingDict); each byte string under "
         "chunkings {whole, 1-byte, header-splitting, random, hint-following} x capacities {1,7,bs-1,bs,large,random incl. 0/NULL} x skipChecksums x "
         "stableDst x {fresh exact dst per call, advancing window}. non-trivial = a session that got past the frame header (block or skippable stage); "
         "distinct = distinct (bytes, chunking, capacity policy, options)")
@@ -58,6 +61,14 @@ def gen_cases(tier, seed):
         for i in range(8):
             cases.append({"kind": "flgbd", "bseed": rng.randrange(1 << 48), "pairs": "sample", "count": 160})
         add("corpus", 1)
+        add("recycle", 2, bsid=4, ccrc=False, sessions=3)
+        add("recycle", 1, bsid=4, ccrc=True, sessions=3)
+        add("recycle", 1, bsid=4, small_blocks=True, sessions=3)
+        add("maxblock", 1, bsid=4, raw=False, bcrc=True, sessions=3)
+        add("maxblock", 1, bsid=5, raw=False, bcrc=True, sessions=2)
+        add("maxblock", 1, bsid=4, raw=True, bcrc=True, sessions=2)
+        add("skipleak", 8)
+        add("infodict", 6)
     elif tier == "search":
         add("valid", 60, frames=3, sessions=8)
         add("mutated", 60, frames=4, sessions=4)
@@ -71,6 +82,14 @@ def gen_cases(tier, seed):
         for i in range(16):
             cases.append({"kind": "flgbd", "bseed": rng.randrange(1 << 48), "pairs": "sample", "count": 200})
         add("corpus", 1)
+        add("recycle", 6, bsid=4, sessions=4)
+        add("recycle", 2, bsid=4, small_blocks=True, sessions=4)
+        add("recycle", 1, bsid=5, sessions=3)
+        for b in (4, 5):
+            add("maxblock", 2, bsid=b, raw=False, bcrc=True, sessions=3)
+            add("maxblock", 1, bsid=b, raw=True, bcrc=True, sessions=2)
+        add("skipleak", 30)
+        add("infodict", 20)
     else:
         add("valid", 300, frames=3, sessions=10)
         add("mutated", 300, frames=4, sessions=5)
@@ -84,6 +103,17 @@ def gen_cases(tier, seed):
         for lo in range(0, 256, 4):
             cases.append({"kind": "flgbd", "bseed": rng.randrange(1 << 48), "pairs": "range", "flg_lo": lo, "flg_hi": lo + 4})
         add("corpus", 1)
+        add("recycle", 24, bsid=4, sessions=4)
+        add("recycle", 8, bsid=4, small_blocks=True, sessions=4)
+        add("recycle", 6, bsid=5, sessions=4)
+        add("recycle", 1, bsid=4, sessions=5, one=True)
+        for b in (4, 5, 6, 7):
+            for raw in (False, True):
+                for bc in (True, False):
+                    add("maxblock", 2 if b <= 5 else 1, bsid=b, raw=raw, bcrc=bc, sessions=4 if b <= 5 else 3, nomodel=(b >= 6))
+        add("maxblock", 1, bsid=4, raw=False, bcrc=True, sessions=1, one=True)
+        add("skipleak", 100)
+        add("infodict", 80)
     return cases
 
 def worker_init(ctx):
@@ -350,6 +380,107 @@ def k_big(st, acc, rng, case):
                 v, len(r.get("out", b"")), len(content), len(r.get("out", b"")) == len(content)), detail(fr, p, r, dict_)); return
         acc.keys.add(hashlib.sha1(fr + repr(sorted(p.items())).encode()).hexdigest())
 
+def k_recycle(st, acc, rng, case):
+    """Directed: linked blocks, > maxBlockSize+128KB of output from uncompressed blocks received through SMALL
+    destination buffers (the decoder's history lives in tmpOutBuffer and has to be recycled: LZ4F_updateDict,
+    branch 'copy dst into tmp to complete dict'), then compressed blocks with far matches.  The content must not
+    depend on the output capacity."""
+    bsid = case.get("bsid", 4)
+    bs = F.BSIZE[bsid]
+    dict_ = None
+    if rng.random() < 0.2:
+        dict_ = gens.data(rng, "random", rng.choice([1000, 70000]))
+    fr, content, meta = F.gen_recycle_frame(rng, bsid=bsid, ccrc=case.get("ccrc"), dict_=dict_ or b"",
+                                            small_blocks=case.get("small_blocks", False))
+    acc.stats["recycle_bsid%d_%s" % (bsid, "ccrc" if meta["ccrc"] else "noccrc")] += 1
+    plans = [{"chunking": "whole", "cap": "large", "contig": False},
+             {"chunking": "kb", "cap": rng.choice(["fix3000", "fix4096", "fix1000"]), "contig": False},
+             {"chunking": "kb", "cap": "kb", "contig": rng.random() < 0.5},
+             {"chunking": "hint", "cap": rng.choice(["fix4096", "kb", "fix20000"]), "contig": True}]
+    if case.get("one"):
+        plans.append({"chunking": "kb", "cap": "fix1", "contig": False})
+    for p0 in plans[:case.get("sessions", 4)]:
+        p = dict(p0); p.update({"skip": False, "stable": False, "dstnull": 0.0})
+        s = F.Session(st, no_model=(p["cap"] == "fix1"))      # 1-byte destination: ~270k calls, real code only
+        if p["contig"]:
+            s.cd.set_contig(len(content) + 70000)
+        try:
+            r = F.drive(s, rng, fr, p["chunking"], p["cap"], skip=False, stable=False, dict_=dict_, bs=bs, hlen=meta["hlen"],
+                        max_calls=400000 if p["cap"] == "fix1" else 8000)
+        finally:
+            acc.evals += s.calls
+            s.free()
+        acc.stats["sessions"] += 1; acc.stats["calls"] += s.calls
+        acc.stats["cap_" + p["cap"]] += 1
+        for k, v in s.stages.items(): acc.stats["rest_" + k] += v
+        v = r["verdict"]
+        if v == "toolong": continue
+        det = detail(fr, p, r, dict_, {"meta": meta, "bseed": case["bseed"]})
+        if v in ("prop", "noprogress"):
+            acc.fail("prop_fail", str(r["what"]), det); return
+        if v != "complete" or r["out"] != content or r["pos"] != len(fr):
+            k = next((i for i, (a, b) in enumerate(zip(r.get("out", b""), content)) if a != b), None)
+            acc.fail("prop_fail", "valid frame (linked, long run of uncompressed blocks, far matches) decoded wrongly with capacity policy %s: %s %s; "
+                     "first wrong byte at %s of %d (a one-shot decode with a large buffer is correct: the result depends on the output capacity)" % (
+                         p["cap"], v, F.ERR.get(r.get("code"), r.get("code")), k, len(content)), det); return
+        if r.get("corr") and not any(f["status"] == "corr_fail" for f in acc.fails):
+            acc.fail("corr_fail", "model/code disagree: " + str(r["corr"]), det)
+        acc.keys.add(hashlib.sha1(fr + repr(sorted(p.items())).encode()).hexdigest())
+
+def k_maxblock(st, acc, rng, case):
+    """Directed: a block whose stored size equals the frame's maximum block size EXACTLY (the header check is
+    `>`), compressed (hand-built: all literals) or uncompressed, with/without block checksum, fed in pieces so
+    that block body + checksum are accumulated in the staging buffer tmpIn[maxBlockSize + 4]
+    (theorem C08_staging_in_bounds is about this array; the library's allocation is exact under ASan)."""
+    bsid = case.get("bsid", 4)
+    maxb = F.BSIZE[bsid]
+    raw = case.get("raw", False)
+    bcrc = case.get("bcrc", True)
+    ccrc = rng.random() < 0.5
+    indep = rng.random() < 0.5
+    if raw:
+        data = rng.randbytes(maxb); content = data
+    else:
+        data, content = F.stored_max_block(rng, maxb)
+    lead = b""; leadc = b""
+    if rng.random() < 0.4:                      # a small block first
+        leadc = rng.randbytes(rng.choice([1, 50, 3000])); lead = F.block(leadc, True, bcrc)
+    hdr = F.header(bsid, indep, bcrc, None, ccrc, None)
+    body = lead + F.block(data, raw, bcrc)
+    fr = hdr + body + struct.pack("<I", 0) + (struct.pack("<I", F.xxh32(leadc + content)) if ccrc else b"")
+    content = leadc + content
+    bstart = len(hdr) + len(lead) + 4          # first byte of the block body
+    bend = bstart + maxb                        # first byte after the body (block checksum, if any)
+    acc.stats["maxblock_bsid%d_%s_%s" % (bsid, "raw" if raw else "comp", "bcrc" if bcrc else "nobcrc")] += 1
+    step = max(3000, maxb // rng.choice([3, 5, 9]))
+    plans = [("cuts", [bstart + rng.randrange(1, 200)] + list(range(bstart + step, bend, step)) + [bend + (2 if bcrc else 0)], "large", False),
+             ("crc_cut", [len(hdr) + 2, bend + (rng.randrange(1, 4) if bcrc else -1)], rng.choice(["large", "bs", "kb"]), False),
+             ("block_minus_1", [bstart, bend + (4 if bcrc else 0) - 1], "large", False),
+             ("whole", "whole", "large", False)]
+    if case.get("one"):
+        plans.append(("one", "one", "large", True))          # 1-byte pieces: real code only (ASan, content)
+    for name, chunking, cap, nomodel in plans[:case.get("sessions", 3)] + (plans[4:] if case.get("one") else []):
+        nomodel = nomodel or case.get("nomodel", False)      # 1 MB / 4 MB blocks: real code only (ASan, content, progress)
+        s = F.Session(st, no_model=nomodel)
+        try:
+            r = F.drive(s, rng, fr, chunking, cap, bs=maxb, hlen=len(hdr), max_calls=5000000 if nomodel else 8000)
+        finally:
+            acc.evals += s.calls
+            s.free()
+        acc.stats["sessions"] += 1; acc.stats["calls"] += s.calls; acc.stats["chunking_" + name] += 1
+        for k, v in s.stages.items(): acc.stats["rest_" + k] += v
+        det = {"data": "len=%d md5=%s" % (len(fr), md5(fr)), "bseed": case["bseed"], "bsid": bsid, "raw": raw, "bcrc": bcrc,
+               "chunking": name, "cuts": chunking if isinstance(chunking, list) else None, "cap": cap, "verdict": r["verdict"], "code": r.get("code")}
+        v = r["verdict"]
+        if v in ("prop", "noprogress"):
+            acc.fail("prop_fail", str(r["what"]), det); return
+        if v != "complete" or r["out"] != content or r["pos"] != len(fr):
+            acc.fail("prop_fail", "valid frame with a block of stored size == maxBlockSize (%s, chunking %s) not decoded: %s %s" % (
+                "raw" if raw else "compressed", name, v, F.ERR.get(r.get("code"), r.get("code"))), det); return
+        if r.get("corr") and not any(f["status"] == "corr_fail" for f in acc.fails):
+            acc.fail("corr_fail", "model/code disagree: " + str(r["corr"]), det)
+        acc.keys.add(hashlib.sha1(fr + name.encode()).hexdigest())
+
 def lz4f_frame(st, rng, data, dict_id=0):
     lib = st["lib"]
     pr = Prefs()
@@ -509,5 +640,23 @@ def run_case(st, case):
     elif kind == "lz4f": k_lz4f(st, acc, rng, case)
     elif kind == "flgbd": k_flgbd(st, acc, rng, case)
     elif kind == "corpus": k_corpus(st, acc, rng, case)
+    elif kind == "recycle": k_recycle(st, acc, rng, case)
+    elif kind == "maxblock": k_maxblock(st, acc, rng, case)
+    elif kind == "infodict":
+        for j in range(5):
+            ev, f = F.run_info_then_dict(st, rng)
+            acc.evals += ev; acc.stats["infodict_runs"] += 1
+            if f:
+                acc.fail(f[0], f[1], f[2]); break
+        else:
+            acc.keys.add("infodict_%d" % case["bseed"])
+    elif kind == "skipleak":
+        for j in range(4):
+            ev, f = F.run_skipleak(st, rng)
+            acc.evals += ev; acc.stats["skipleak_runs"] += 1
+            if f:
+                acc.fail(f[0], f[1], f[2]); break
+        else:
+            acc.keys.add("skipleak_%d" % case["bseed"])
     else: raise ValueError(kind)
     return acc.results()
